@@ -51,12 +51,12 @@ RetStep(t, k, ok) ==
           /\ set' = set /\ pend' = [pend EXCEPT ![t] = Idle]
        \/ /\ pend[t].st = "called"                                 \* Lin(t) ; Ret(t)
           /\ ok = (k \notin set)
-          /\ set' = set \cup {k} /\ pend' = [pend EXCEPT ![t] = Idle]
+          /\ set' = Add(set, k) /\ pend' = [pend EXCEPT ![t] = Idle]
        \/ /\ pend[t].st = "called" /\ ~ok /\ k \notin set           \* Lin(u) ; Lin(t) ; Ret(t)
           /\ \E u \in Threads \ {t} :
                 /\ pend[u].st = "called" /\ pend[u].k = k
                 /\ pend' = [pend EXCEPT ![t] = Idle, ![u] = [k |-> k, st |-> "done", res |-> TRUE]]
-          /\ set' = set \cup {k}
+          /\ set' = Add(set, k)
 
 \* a sequence of sequential inserts folded into one event: the i-th insert reports TRUE iff its key is neither in
 \* the set before the fill nor among the earlier keys of the fill
@@ -69,18 +69,20 @@ ProbeOK(e, S) ==
                              /\ e.lb[i] = LowerBound(S, q)
                              /\ e.ub[i] = UpperBound(S, q)
 
+\* "(state predicate) = TRUE": TLC then evaluates the predicate as an expression instead of unfolding its quantifiers as
+\* action-level conjunctions (one stack frame group per probe key / sequence element)
 TNext == /\ l <= Len(TraceData)
          /\ l' = l + 1
          /\ CASE Ev.e = "reset"  -> set' = {} /\ pend' = [t \in Threads |-> Idle]
-              [] Ev.e = "fill"   -> /\ Quiet /\ Len(Ev.ks) = Len(Ev.rs) /\ FillOK(set, Ev.ks, Ev.rs)
-                                    /\ set' = set \cup Range(Ev.ks) /\ UNCHANGED pend
+              [] Ev.e = "fill"   -> /\ (Quiet /\ Len(Ev.ks) = Len(Ev.rs) /\ FillOK(set, Ev.ks, Ev.rs)) = TRUE
+                                    /\ set' = {x : x \in set \cup Range(Ev.ks)} /\ UNCHANGED pend
               [] Ev.e = "call"   -> Call(Ev.t, Ev.k)
               [] Ev.e = "ret"    -> RetStep(Ev.t, Ev.k, Ev.ok)
               [] Ev.e = "ins"    -> Insert(Ev.k, Ev.ok)
               [] Ev.e = "erase"  -> Erase(Ev.k, Ev.n)
-              [] Ev.e = "scan"   -> Quiet /\ Ev.size = Size(set) /\ IsIterationOf(Ev.iter, set) /\ UNCHANGED avars
-              [] Ev.e = "probe"  -> Quiet /\ ProbeOK(Ev, set) /\ UNCHANGED avars
-              [] Ev.e = "chunks" -> Quiet /\ IsChunkingOf(Ev.cs, set) /\ UNCHANGED avars
+              [] Ev.e = "scan"   -> (Quiet /\ Ev.size = Size(set) /\ IsIterationOf(Ev.iter, set)) = TRUE /\ UNCHANGED avars
+              [] Ev.e = "probe"  -> (Quiet /\ ProbeOK(Ev, set)) = TRUE /\ UNCHANGED avars
+              [] Ev.e = "chunks" -> (Quiet /\ IsChunkingOf(Ev.cs, set)) = TRUE /\ UNCHANGED avars
 TSpec == TInit /\ [][TNext]_tvars
 Accepted == TLCGet("stats").diameter - 1 = Len(TraceData)
 =============================================================================
